@@ -9,17 +9,17 @@ Open Scope Z_scope.
 Definition w0 (c i : Z) : Z := 0.
 Definition g0 (gh : ghost) : Z := 0.
 
-Lemma user_range U a : users U -> In a U -> a < 1 \/ 24 < a.
+Lemma user_range U a : users U -> In a U -> a < 1 \/ 25 < a.
 Proof.
   intros [_ H] Ha. specialize (H a Ha). unfold is_module in H.
-  destruct (Z.leb_spec 1 a), (Z.leb_spec a 24); cbn in H; try discriminate; lia.
+  destruct (Z.leb_spec 1 a), (Z.leb_spec a 25); cbn in H; try discriminate; lia.
 Qed.
 Lemma cacc_range c : 1 <= cacc c <= 8.
 Proof. unfold cacc, chain_ok. destruct (Z.leb_spec 1 c), (Z.leb_spec c 8); cbn [andb]; lia. Qed.
 
 Ltac acc_facts U HU :=
   repeat match goal with
-  | H : In ?a U |- _ => lazymatch goal with | _ : a < 1 \/ 24 < a |- _ => fail | _ => pose proof (user_range U a HU H) end
+  | H : In ?a U |- _ => lazymatch goal with | _ : a < 1 \/ 25 < a |- _ => fail | _ => pose proof (user_range U a HU H) end
   end;
   repeat match goal with
   | |- context [cacc ?c] => lazymatch goal with | _ : 1 <= cacc c <= 8 |- _ => fail | _ => pose proof (cacc_range c) end
@@ -86,17 +86,17 @@ Ltac c8_blk U HU tk i Hkind :=
   [ rewrite ?(Hkind tk) by assumption; split_prog; pd_rw; cbn [coef lin_add lin_scale lin_cell lin_zero cell_eqb];
     rewrite <- ?Eid; rep_facts tk
   | destruct (t_kind tk); split_prog; pd_rw; cbn [coef lin_add lin_scale lin_cell lin_zero cell_eqb] ];
-  unfold A_ERC20, A_IBC, A_WFX, A_EVM, A_PRE, FX in *; acc_facts U HU; den_facts; split_eqb; try lia.
+  unfold A_ERC20, A_IBC, A_WFX, A_EVM, A_PRE, A_ESC, FX in *; acc_facts U HU; den_facts; split_eqb; try lia.
 Ltac c8_plain U HU :=
   apply dB_pdelta; unfold w0; c8_unf; blk_unfold; split_prog; pd_rw; cbn [coef lin_add lin_scale lin_cell lin_zero cell_eqb];
-  unfold A_ERC20, A_IBC, A_WFX, A_EVM, A_PRE, FX in *; acc_facts U HU; split_eqb; try lia.
+  unfold A_ERC20, A_IBC, A_WFX, A_EVM, A_PRE, A_ESC, FX in *; acc_facts U HU; split_eqb; try lia.
 
 Ltac c8_intros :=
   constructor; [intros tk c' a x Htk Ha|intros tk c' a x Htk Ha|intros tk a b x Htk Ha Hb|intros tk a b x Htk Ha Hb|
                 intros tk a src tg x Htk Ha|intros tk a b src tg x Htk Ha Hb|intros tk c' a x Htk Ha|reflexivity|
                 intros tk c' x Htk|intros tk c' a x Htk Ha|intros a x Ha|intros tk a x Htk Ha|intros a b d' x Ha Hb|
                 intros i' a b x Ha Hb|intros a x Ha|intros a x Ha|intros tk a x Htk Ha|intros tk a x Htk Ha|intros tk a x Htk Ha|
-                intros; split; reflexivity|intros; split; reflexivity].
+                intros tk a x Htk Ha|intros tk a x Htk Ha|intros; split; reflexivity|intros; split; reflexivity].
 
 (* ------------------------------------------------------------------------------------------------ *)
 (** * module-owned pair: coins escrowed by the erc20 module = ERC-20 totalSupply *)
@@ -132,6 +132,8 @@ Proof.
   - c8_blk U HU tk i kindM.
   - c8_blk U HU tk i kindM.
   - c8_blk U HU tk i kindM.
+  - c8_blk U HU tk i kindM.
+  - c8_blk U HU tk i kindM.
 Qed.
 End EMOD.
 
@@ -154,7 +156,7 @@ Ltac fx_blk tk :=
   [ rewrite ?(kindF tk) by assumption; rewrite ?(no_convert_fx tk) by (apply kindF; assumption)
   | destruct (t_kind tk) ];
   split_prog; pd_rw; cbn [coef lin_add lin_scale lin_cell lin_zero cell_eqb];
-  unfold A_ERC20, A_IBC, A_WFX, A_EVM, A_PRE, FX in *; acc_facts U HU; den_facts; split_eqb; try lia.
+  unfold A_ERC20, A_IBC, A_WFX, A_EVM, A_PRE, A_ESC, FX in *; acc_facts U HU; den_facts; split_eqb; try lia.
 Ltac c8_unf ::= unfold lF.
 
 Lemma blocks_efx : blocks g U lF w0 g0 g0 0 1.
@@ -175,6 +177,8 @@ Proof.
   - c8_plain U HU.
   - c8_plain U HU.
   - c8_plain U HU.
+  - fx_blk tk.
+  - fx_blk tk.
   - fx_blk tk.
   - fx_blk tk.
   - fx_blk tk.
@@ -276,17 +280,26 @@ Ltac x_blk tk Htk :=
     rewrite ?dtok_base, ?dtok_alias, ?dtok_ibc, ?dtok_rep; rewrite <- ?Eid; rep_facts tk; rewrite ?Z.eqb_refl
   | destruct (t_kind tk); split_prog; pd_rw; rewrite ?coefX_CB, ?coefX_CS, ?coefX_CE, ?coefX_CT;
     rewrite ?dtok_base, ?dtok_alias, ?dtok_ibc, ?dtok_rep ];
-  unfold ind, A_ERC20, A_IBC, A_WFX, A_EVM, A_PRE, FX in *; acc_facts U HU; den_facts; split_eqb; try lia.
+  unfold ind, A_ERC20, A_IBC, A_WFX, A_EVM, A_PRE, A_ESC, FX in *; acc_facts U HU; den_facts; split_eqb; try lia.
 Ltac x_plain :=
   apply dB_pdelta; unfold w0; blk_unfold; split_prog; pd_rw; rewrite ?coefX_CB, ?coefX_CS, ?coefX_CE, ?coefX_CT;
-  unfold ind, A_ERC20, A_IBC, A_WFX, A_EVM, A_PRE, FX, dtok in *; acc_facts U HU; split_eqb; try lia.
+  unfold ind, A_ERC20, A_IBC, A_WFX, A_EVM, A_PRE, A_ESC, FX, dtok in *; acc_facts U HU; split_eqb; try lia.
 (* the IBC programs of the watched token cannot run: it has no IBC alias *)
 Ltac x_ibc tk Htk :=
   destruct (Z.eqb_spec (t_id tk) i) as [Eid|Eid];
   [ intros b0 b1 Hrun; cbn [runB run_act ibc_to_base base_to_ibc] in Hrun; rewrite (tokX tk Htk Eid), Hibc in Hrun; discriminate Hrun
   | apply dB_pdelta; unfold w0; blk_unfold; destruct (t_kind tk); split_prog; pd_rw;
     rewrite ?coefX_CB, ?coefX_CS, ?coefX_CE, ?coefX_CT; rewrite ?dtok_base, ?dtok_alias, ?dtok_ibc, ?dtok_rep;
-    unfold ind, A_ERC20, A_IBC, A_WFX, A_EVM, A_PRE, FX in *; acc_facts U HU; den_facts; split_eqb; try lia ].
+    unfold ind, A_ERC20, A_IBC, A_WFX, A_EVM, A_PRE, A_ESC, FX in *; acc_facts U HU; den_facts; split_eqb; try lia ].
+
+(* BaseCoinToIBCCoin / the ICS-20 send of the watched token cannot run either (no IBC alias, not FX) *)
+Ltac x_ibc2 tk Htk :=
+  destruct (Z.eqb_spec (t_id tk) i) as [Eid|Eid];
+  [ intros b0 b1 Hrun; unfold base_to_ibc, ibc_send, is_fx in Hrun; rewrite (tokX tk Htk Eid), Hk in Hrun;
+    cbn [runB run_act] in Hrun; rewrite Hibc in Hrun; discriminate Hrun
+  | apply dB_pdelta; unfold w0; blk_unfold; unfold is_fx; destruct (t_kind tk); split_prog; pd_rw;
+    rewrite ?coefX_CB, ?coefX_CS, ?coefX_CE, ?coefX_CT; rewrite ?dtok_base, ?dtok_alias, ?dtok_ibc, ?dtok_rep;
+    unfold ind, A_ERC20, A_IBC, A_WFX, A_EVM, A_PRE, A_ESC, FX in *; acc_facts U HU; den_facts; split_eqb; try lia ].
 
 Lemma blocks_eext : blocks g U lX w0 g0 g0 0 1.
 Proof.
@@ -308,7 +321,9 @@ Proof.
   - x_plain.
   - x_ibc tk Htk.
   - x_ibc tk Htk.
-  - x_ibc tk Htk.
+  - x_ibc2 tk Htk.
+  - x_ibc2 tk Htk.
+  - x_blk tk Htk.
 Qed.
 End EEXT.
 
